@@ -58,16 +58,22 @@
    Named deviations = what the code does (TRUE) against a mechanism that keeps
    the property (FALSE):
      Dev_StateAtCompletion   (known, DESIGN 7 #27) see Splitter.tla
-     Dev_CursorAtReaderOnly  a restored cursor lives in the splitter's memory
+   The model is the REPAIRED code (fix commit on branch kreader of the repo). The
+   switch Pre_CursorAtReaderOnly re-enables what the code did before; the check
+   uses it to show that the invariants are not vacuous and to replay the
+   schedules only the unrepaired code fails (the real code must keep the
+   property on them):
+     Pre_CursorAtReaderOnly  a restored cursor lived in the splitter's memory
                              (SourceSplitter.cursors) and in the reader once the
-                             assignment is delivered, but only the READER's
-                             cursors are checkpointed: a checkpoint whose barrier
+                             assignment was delivered, but only the READER's
+                             cursors were checkpointed: a checkpoint whose barrier
                              overtakes the delivery of the assignment message in
-                             the runner loop holds the shard (splitter state) but
-                             no cursor => after the next restore the shard is read
-                             again from TRIM_HORIZON.
-                             FALSE: the checkpoint keeps the splitter's cursor of
-                             every tracked shard no reader reported.
+                             the runner loop held the shard (splitter state) but
+                             no cursor => after the next restore the shard was
+                             read again from TRIM_HORIZON.
+                             FALSE (repaired): the splitter state keeps the
+                             restored cursor of every tracked shard; a split state
+                             reported by a reader supersedes it.
    Non-vacuity switch (never the code): Bug_AtSeq = iterators are fetched AT the
    cursor instead of AFTER it.                                              *)
 EXTENDS Integers, Sequences, FiniteSets, TLC, Json
@@ -81,7 +87,7 @@ CONSTANTS NInit,       \* shards of the new stream
           MaxCkpts,    \* completed checkpoints per behaviour
           MaxLen,      \* steps per behaviour (generation only)
           LogOn,       \* FALSE: no history (exhaustive runs)
-          Dev_StateAtCompletion, Dev_CursorAtReaderOnly, Bug_AtSeq
+          Dev_StateAtCompletion, Pre_CursorAtReaderOnly, Bug_AtSeq
 
 VARIABLES shards,      \* the stream: <<[lo, hi, par, closed, n], ...>>
           up, R,       \* a splitter incarnation is running, its runner count
@@ -100,7 +106,7 @@ VARIABLES shards,      \* the stream: <<[lo, hi, par, closed, n], ...>>
           pcur, pcut,  \* cursors captured so far (-1 = none) / cut positions fixed so far
           pfin,        \* shards finished at the cut so far
           K,           \* the latest completed checkpoint
-          whyS, whyC,  \* ghost: shards dropped by Dev_StateAtCompletion / cursors dropped by Dev_CursorAtReaderOnly
+          whyS, whyC,  \* ghost: shards dropped by Dev_StateAtCompletion / cursors dropped by Pre_CursorAtReaderOnly
           bad,         \* ghost: violations produced by the last action
           nst, nck,    \* (re)starts / completed checkpoints so far
           hist
@@ -265,7 +271,7 @@ Read(r, lim) ==
          gap  == q > em[s] /\ e > q
          erl  == e > q /\ \E p \in Par(s) : em[p] < shards[p].n
          b    == (IF rep THEN {[k |-> "repeat", s |-> s,
-                               dev |-> IF Bug_AtSeq THEN "Bug_AtSeq" ELSE IF s \in whyC THEN "Dev_CursorAtReaderOnly" ELSE "?"]} ELSE {})
+                               dev |-> IF Bug_AtSeq THEN "Bug_AtSeq" ELSE IF s \in whyC THEN "Pre_CursorAtReaderOnly" ELSE "?"]} ELSE {})
                  \cup (IF gap THEN {[k |-> "gap", s |-> s, dev |-> "?"]} ELSE {})
                  \cup (IF erl THEN {[k |-> "early", s |-> s,
                                      dev |-> IF {p \in Par(s) : em[p] < shards[p].n} \cap whyS # {} THEN "Dev_StateAtCompletion" ELSE "?"]} ELSE {})
@@ -316,11 +322,11 @@ Complete ==
          late == fin \ finK
          kn   == IF Dev_StateAtCompletion THEN known ELSE (known \cup late)
          cur1 == [s \in All |-> IF pcur[s] >= 0 THEN pcur[s]
-                                ELSE IF ~Dev_CursorAtReaderOnly /\ s \in kn THEN scur[s] ELSE -1]
+                                ELSE IF ~Pre_CursorAtReaderOnly /\ s \in kn THEN scur[s] ELSE -1]
          drop == {s \in kn : pcur[s] < 0 /\ scur[s] > 0}
      IN  /\ K' = [has |-> TRUE, known |-> kn, last |-> last, cur |-> cur1, em |-> pcut, fin |-> finK,
                   whyS |-> whyS \cup (IF Dev_StateAtCompletion THEN late ELSE {}),
-                  whyC |-> whyC \cup (IF Dev_CursorAtReaderOnly THEN drop ELSE {})]
+                  whyC |-> whyC \cup (IF Pre_CursorAtReaderOnly THEN drop ELSE {})]
          /\ Log([a |-> "Complete", known |-> SetSeq(kn), last |-> last])
   /\ pend' = FALSE /\ bad' = {} /\ nck' = nck + 1
   /\ UNCHANGED <<shards, up, R, known, asg, last, scur, inbox, asn, ridx, rseq, itst, own, em, fin, finBy,
@@ -361,13 +367,17 @@ PerShardOrder == \A s \in Ids : rseq[s] \in 0..shards[s].n /\ em[s] \in 0..shard
 \* a child is never held by a reader while a parent is unfinished
 ChildAfterParentX(ex) == \A s \in Ids : own[s] # 0 => \A p \in Par(s) \ ex : p \in fin
 
-\* all deviations FALSE: the mechanism keeps the property
-DesignOK == bad = {} /\ PositionsX({}) /\ NoneLostX({}) /\ ChildAfterParentX({})
+\* after a restore exactly the records after the checkpointed positions are read: none repeated, none skipped, none left
+ResumeExact == (\A b \in bad : b.k \notin {"repeat", "gap"}) /\ PositionsX({}) /\ NoneLostX({})
+\* no record of a child before all records of its parents, no child handed out before its parents are finished
+ChildAfterParent == (\A b \in bad : b.k # "early") /\ ChildAfterParentX({})
+\* all switches FALSE: the mechanism keeps the property
+DesignOK == ResumeExact /\ ChildAfterParent
 \* deviations TRUE (the code as it is): every violation the model admits is attributed to a named deviation
 Attributed == /\ \A b \in bad : b.dev # "?"
               /\ PositionsX(whyC) /\ NoneLostX(whyS) /\ ChildAfterParentX(whyS)
 
-TypeOK == /\ N <= MaxShards /\ last \in 0..MaxShards /\ R \in Runners
+TypeOK == /\ N <= MaxShards /\ last \in 0..MaxShards /\ R \in Runners \cup {1}
           /\ known \subseteq Ids /\ fin \subseteq Ids /\ asg \subseteq known
           /\ \A r \in RR : ridx[r] = 0 \/ ridx[r] < Len(asn[r])
 
